@@ -45,10 +45,10 @@ EXHAUSTIVE_NOTE = ('verdict class variants (21) x 5 positions, and the list of i
                    'enumerated completely in both tiers')
 MIN_OBS = {'quick': {'evaluations': 400, 'c16.progress_valid_checked': 150, 'c16.junit_valid_checked': 150,
                      'c16.invalid_checked': 100, 'c16.log_compared': 300, 'c16.reporters_compared': 150,
-                     'c16.order_nontrivial': 60, 'classes': 150},
+                     'c16.order_nontrivial': 60, 'c16.subprocess_crosschecks': 8, 'classes': 150},
            'thorough': {'evaluations': 3000, 'c16.progress_valid_checked': 1000, 'c16.junit_valid_checked': 1000,
                         'c16.invalid_checked': 500, 'c16.log_compared': 2000, 'c16.reporters_compared': 1000,
-                        'c16.order_nontrivial': 600, 'classes': 400}}
+                        'c16.order_nontrivial': 600, 'c16.subprocess_crosschecks': 8, 'classes': 400}}
 
 NVAR = {'PASS': 2, 'FAIL': 2, 'XFAIL': 2, 'XPASS': 1, 'SKIPPED': 2, 'SYNTAX_INSTR': 3, 'SYNTAX_ACT': 1,
         'VALIDATION_ERROR': 2, 'HARD_ERROR': 4, 'FILE_ACCESS_ERROR': 1, 'UNDECODABLE': 1}
@@ -184,7 +184,7 @@ def model_of(desc):
 def cases(tier, seed):
     for d in _core():
         yield d
-    n = 110 if tier == 'quick' else 1500
+    n = 150 if tier == 'quick' else 3000
     rng = common.rng_for(seed, ID, 'random-trees')
     for i in range(n):
         yield _random_descriptor(rng, i)
@@ -460,6 +460,8 @@ def _random_descriptor(rng, index):
                 n_cases = sum(len(c) for _, c in enum)
                 if n_cases > 8 or len(enum) > 9:
                     continue
+                if (n_cases == 0 and rng.random() < 0.9) or (len(enum) == 1 and rng.random() < 0.6):
+                    continue  # keep trivial trees rare
                 if inject:
                     desc['note'] = _inject_defect(rng, t, enum)
                     status, enum, node = model_of(desc)
@@ -744,7 +746,8 @@ def parse_progress(out):
 
 
 def parse_junit(out):
-    """-> (root tag, [ {name, tests, failures, errors, cases: [(name, [child tags])]} ], problem | None)"""
+    """-> (root tag, [ {name, package, tests, failures, errors, cases: [(name, [child tags])]} ], problem | None)
+    A testsuite is identified by `name`, or by `package`/`name` (JUnit schema: package + name)."""
     try:
         root = ElementTree.fromstring(out.encode('utf-8'))
     except Exception as ex:
@@ -763,8 +766,8 @@ def parse_junit(out):
         for tc in e:
             if tc.tag == 'testcase':
                 tcs.append((tc.get('name'), [c.tag for c in tc]))
-        suites.append({'name': e.get('name'), 'tests': e.get('tests'), 'failures': e.get('failures'),
-                       'errors': e.get('errors'), 'cases': tcs})
+        suites.append({'name': e.get('name'), 'package': e.get('package'), 'tests': e.get('tests'),
+                       'failures': e.get('failures'), 'errors': e.get('errors'), 'cases': tcs})
     return root.tag, suites, None
 
 
@@ -840,6 +843,7 @@ def run_case(case, ctx):
     evaluations = 0
     shown = {}
     observed_for_sample = {}
+    full_obs = {}
     for reporter in ('progress', 'junit'):
         if os.path.exists(log):
             os.remove(log)
@@ -855,6 +859,7 @@ def run_case(case, ctx):
         if os.path.exists(log):
             with open(log) as f:
                 log_ids = f.read().split()
+        full_obs[reporter] = (argv, r.rc, r.out, list(log_ids))
         observed_for_sample[reporter] = {'argv': argv[:-1] + ['<root>'], 'rc': r.rc, 'stdout': r.out[:1500],
                                          'log': log_ids}
         if r.timed_out:
@@ -964,7 +969,9 @@ def run_case(case, ctx):
                     % (tag, exp_tag, 'with' if node.subs else 'without'), kind='junit_root_tag')
             i = 0
             for sp, cps in enum:
-                if i < len(suites) and denotes(suites[i]['name'], sp):
+                if i < len(suites) and (denotes(suites[i]['name'], sp) or
+                                        denotes(posixpath.join(suites[i]['package'] or '.', suites[i]['name'] or ''),
+                                                sp)):
                     js = suites[i]
                     i += 1
                 elif not cps:
@@ -1022,6 +1029,22 @@ def run_case(case, ctx):
                                  % (label, shown['progress'], shown['junit']),
                          'detail': {'kind': 'reporters_disagree', 'progress': shown['progress'],
                                     'junit': shown['junit']}})
+    # ---- validation of the in-process driver itself: the same runs through a fresh interpreter -------
+    if case.get('label') in XCHECK_LABELS and not inconc:
+        from vf import driver
+        for reporter, (argv, rc1, out1, log1) in sorted(full_obs.items()):
+            if os.path.exists(log):
+                os.remove(log)
+            rc2, out2, _ = driver.run_in_subprocess(argv, cwd_abs, ses.tmpdir)
+            log2 = []
+            if os.path.exists(log):
+                with open(log) as f:
+                    log2 = f.read().split()
+            ctx.count('c16.subprocess_crosschecks')
+            if (rc1, _without_times(out1), log1) != (rc2, _without_times(out2), log2):
+                viol.append({'what': 'C16 [%s] %s: in-process driver and `python -c main()` disagree' % (label, reporter),
+                             'detail': {'kind': 'driver_crosscheck', 'in_process': [rc1, out1[:1500], log1],
+                                        'subprocess': [rc2, out2[:1500], log2]}})
     ses.clean_tmp()
     ses.drop(d)
     res = {'classes': classes, 'viol': viol, 'inconclusive': inconc, 'evaluations': evaluations}
@@ -1039,6 +1062,15 @@ def run_case(case, ctx):
                          for k, v in observed_for_sample.items()},
         }
     return res
+
+
+XCHECK_LABELS = ('appendix-tree:abs:d2', 'all-classes', 'double:detour', 'syntax:unknown_section:1',
+                 'depth3-siblings-interleaved-sections')
+_RX_TIMES = re.compile(r'\(\d+(?:\.\d+)?s\)|(?:time|timestamp)="[^"]*"')
+
+
+def _without_times(out):
+    return _RX_TIMES.sub('<T>', out)
 
 
 def _canon(case, suite_path):
